@@ -7,16 +7,25 @@ package main
 
 import (
 	"context"
+	gosql "database/sql"
 	"fmt"
+	"io"
+	"net"
 	"sort"
 	"strings"
 	"sync"
 	"sync/atomic"
 	"time"
 
+	_ "github.com/go-sql-driver/mysql"
+	"github.com/sirupsen/logrus"
+
+	"github.com/dolthub/go-mysql-server/memory"
+	"github.com/dolthub/go-mysql-server/server"
 	"github.com/dolthub/go-mysql-server/sql"
 
 	"verifharness/lib"
+	"verifharness/lib/eng"
 )
 
 type opT struct {
@@ -37,6 +46,7 @@ type caseT struct {
 	G       int  `json:"g,omitempty"`
 	Rounds  int  `json:"rounds,omitempty"`
 	UseLock bool `json:"use_lock,omitempty"`
+	SQL     []sqlOp `json:"sql,omitempty"`
 }
 
 const universe = 3
@@ -540,6 +550,309 @@ func runFreshRace(c *lib.Ctx, cs caseT) {
 	}
 }
 
+// ---------------- (e) the SQL layer through a real server: GET_LOCK family and release on disconnect ----------------
+type sqlOp struct {
+	C   int    `json:"c"`             // logical connection (1..3)
+	K   string `json:"k"`             // get rel isfree isused relall disconnect
+	N   int    `json:"n,omitempty"`   // name index
+	Tmo int    `json:"tmo,omitempty"` // GET_LOCK timeout (seconds): 0, >0, <0
+}
+
+var (
+	srvOnce   sync.Once
+	srvAddr   string
+	srvEngine *eng.E
+	sqlSerial int
+)
+
+func startServer() {
+	srvOnce.Do(func() {
+		logrus.SetOutput(io.Discard)
+		srvEngine = eng.New("db")
+		ln, err := net.Listen("tcp", "127.0.0.1:0")
+		if err != nil {
+			panic("driver: " + err.Error())
+		}
+		srvAddr = ln.Addr().String()
+		cfg := server.Config{Protocol: "tcp", Address: srvAddr, Listener: ln}
+		srv, err := server.NewServer(cfg, srvEngine.Engine, sql.NewContext, memory.NewSessionBuilder(srvEngine.Pro), nil)
+		if err != nil {
+			panic("driver: " + err.Error())
+		}
+		go func() { _ = srv.Start() }()
+	})
+}
+
+type sqlConn struct {
+	db   *gosql.DB
+	conn *gosql.Conn
+	id   uint32 // server-side connection id
+	t    int    // model session number
+}
+
+func openConn(t int) *sqlConn {
+	db, err := gosql.Open("mysql", fmt.Sprintf("root:@tcp(%s)/db", srvAddr))
+	if err != nil {
+		panic("driver: " + err.Error())
+	}
+	db.SetMaxOpenConns(1)
+	var conn *gosql.Conn
+	for i := 0; ; i++ {
+		conn, err = db.Conn(context.Background())
+		if err == nil {
+			break
+		}
+		if i > 100 {
+			panic("driver: server does not answer: " + err.Error())
+		}
+		time.Sleep(20 * time.Millisecond)
+	}
+	c := &sqlConn{db: db, conn: conn, t: t}
+	if err := conn.QueryRowContext(context.Background(), "SELECT CONNECTION_ID()").Scan(&c.id); err != nil {
+		panic("driver: " + err.Error())
+	}
+	return c
+}
+
+// scalar runs a one-value statement; returns the Coq sqlval term and the printable value.
+func (c *sqlConn) scalar(q string) (string, error) {
+	var v gosql.NullInt64
+	if err := c.conn.QueryRowContext(context.Background(), q).Scan(&v); err != nil {
+		return "", err
+	}
+	if !v.Valid {
+		return "NULL", nil
+	}
+	return fmt.Sprint(v.Int64), nil
+}
+
+func runSQL(c *lib.Ctx, cs caseT) {
+	startServer()
+	sqlSerial++
+	nm := func(n int) string { return fmt.Sprintf("c%d_n%d", sqlSerial, n) }
+	c.Count("mode_sql")
+	conns := map[int]*sqlConn{}
+	idToT := map[uint32]int{}
+	nextT := 0
+	get := func(lc int) *sqlConn {
+		if conns[lc] == nil {
+			nextT++
+			conns[lc] = openConn(nextT)
+			idToT[conns[lc].id] = nextT
+		}
+		return conns[lc]
+	}
+	defer func() {
+		for _, x := range conns {
+			x.conn.Close()
+			x.db.Close()
+		}
+	}()
+	rf := newRef()
+	var items []string
+	var fail [2]string
+	setFail := func(sig, what string) {
+		if fail[0] == "" {
+			fail = [2]string{sig, what}
+		}
+	}
+	disconnects, reentrant, contended := 0, 0, 0
+	for i, o := range cs.SQL {
+		x := get(o.C)
+		t := x.t
+		at := fmt.Sprintf("statement %d (%s n%d tmo %d on connection %d)", i, o.K, o.N, o.Tmo, o.C)
+		var got, want, term string
+		var err error
+		switch o.K {
+		case "get":
+			if cl, ok := rf.held[o.N]; ok {
+				if cl.owner == t {
+					reentrant++
+				} else {
+					contended++
+				}
+			}
+			if cl, ok := rf.held[o.N]; ok && cl.owner != t && o.Tmo < 0 {
+				// a negative timeout waits for ever: issue it, let the holder release, and only then must it return 1
+				holder := cl.owner
+				done := make(chan string, 1)
+				go func() {
+					v, e := x.scalar(fmt.Sprintf("SELECT GET_LOCK('%s', %d)", nm(o.N), o.Tmo))
+					if e != nil {
+						v = "ERR:" + e.Error()
+					}
+					done <- v
+				}()
+				select {
+				case v := <-done:
+					setFail("sql/get_lock/negative-timeout-returned-while-lock-held", at+": returned "+v+" while session "+fmt.Sprint(holder)+" holds the lock")
+				case <-time.After(150 * time.Millisecond):
+				}
+				for _, hc := range conns {
+					if hc.t == holder {
+						for rf.held[o.N].owner == holder {
+							v, e := hc.scalar(fmt.Sprintf("SELECT RELEASE_LOCK('%s')", nm(o.N)))
+							w := rf.apply(opT{T: holder, K: "unlock", N: o.N})
+							if e != nil || (v == "1") != (w == "ROk") {
+								setFail("sql/release_lock/wrong-value", fmt.Sprintf("%s: holder's RELEASE_LOCK returned %s %v", at, v, e))
+								break
+							}
+							items = append(items, fmt.Sprintf("SI %d (SRel %d) (Some (VInt 1))", holder, o.N))
+							if _, still := rf.held[o.N]; !still {
+								break
+							}
+						}
+					}
+				}
+				select {
+				case got = <-done:
+				case <-time.After(3 * time.Second):
+					got = "still waiting"
+				}
+				rf.apply(opT{T: t, K: "lock", N: o.N})
+				want = "1"
+				term = fmt.Sprintf("SI %d (SGet %d (%d)%%Z) ", t, o.N, o.Tmo)
+				break
+			}
+			got, err = x.scalar(fmt.Sprintf("SELECT GET_LOCK('%s', %d)", nm(o.N), o.Tmo))
+			k := "lock"
+			if o.Tmo == 0 {
+				k = "try"
+			}
+			switch rf.apply(opT{T: t, K: k, N: o.N}) {
+			case "ROk", "RBool true":
+				want = "1"
+			default:
+				want = "0"
+			}
+			term = fmt.Sprintf("SI %d (SGet %d (%d)%%Z) ", t, o.N, o.Tmo)
+		case "rel":
+			got, err = x.scalar(fmt.Sprintf("SELECT RELEASE_LOCK('%s')", nm(o.N)))
+			want = map[string]string{"ROk": "1", "RNotOwned": "0", "RNotExist": "NULL"}[rf.apply(opT{T: t, K: "unlock", N: o.N})]
+			term = fmt.Sprintf("SI %d (SRel %d) ", t, o.N)
+		case "isfree":
+			got, err = x.scalar(fmt.Sprintf("SELECT IS_FREE_LOCK('%s')", nm(o.N)))
+			want = "1"
+			if _, ok := rf.held[o.N]; ok {
+				want = "0"
+			}
+			term = fmt.Sprintf("SI %d (SIsFree %d) ", t, o.N)
+		case "isused":
+			got, err = x.scalar(fmt.Sprintf("SELECT IS_USED_LOCK('%s')", nm(o.N)))
+			want = "NULL"
+			if cl, ok := rf.held[o.N]; ok {
+				want = fmt.Sprint(cl.owner)
+			}
+			if got != "NULL" && err == nil { // translate the server's connection id into the model's session number
+				var id uint32
+				fmt.Sscan(got, &id)
+				if tt, ok := idToT[id]; ok {
+					got = fmt.Sprint(tt)
+				} else {
+					got = "999999"
+				}
+			}
+			term = fmt.Sprintf("SI %d (SIsUsed %d) ", t, o.N)
+		case "relall":
+			got, err = x.scalar("SELECT RELEASE_ALL_LOCKS()")
+			want = strings.TrimPrefix(rf.apply(opT{T: t, K: "relall"}), "RCount ")
+			term = fmt.Sprintf("SI %d SRelAll ", t)
+		case "disconnect":
+			disconnects++
+			x.conn.Close()
+			x.db.Close()
+			delete(conns, o.C)
+			gone := false
+			for t0 := time.Now(); time.Since(t0) < 3*time.Second && !gone; {
+				gone = true
+				for _, p := range srvEngine.Engine.ProcessList.Processes() {
+					if p.Connection == x.id {
+						gone = false
+					}
+				}
+				if !gone {
+					time.Sleep(2 * time.Millisecond)
+				}
+			}
+			if !gone {
+				setFail("sql/disconnect/connection-still-listed", at+": the closed connection is still in the process list after 3 s")
+			}
+			rf.apply(opT{T: t, K: "relall"})
+			items = append(items, fmt.Sprintf("SI %d SDisconnect None", t))
+			// the property: exactly that session's locks are free now, everything else is untouched
+			for n := 1; n <= universe; n++ {
+				st, ow := srvEngine.Engine.LS.GetLockState(nm(n))
+				wantOw := 0
+				if cl, ok := rf.held[n]; ok {
+					wantOw = cl.owner
+				}
+				if (st == sql.LockInUse) != (wantOw != 0) || (wantOw != 0 && idToT[ow] != wantOw) {
+					setFail("sql/disconnect/locks-after-disconnect", fmt.Sprintf("%s: lock n%d is in state %d owner conn %d, expected holder session %d", at, n, st, ow, wantOw))
+				}
+			}
+			continue
+		default:
+			panic("driver: unknown sql op " + o.K)
+		}
+		if err != nil {
+			setFail("sql/"+o.K+"/error", at+": "+err.Error())
+			break
+		}
+		if got != want {
+			setFail("sql/"+o.K+"/wrong-value", fmt.Sprintf("%s returned %s, a re-entrant counted lock gives %s", at, got, want))
+		}
+		if got == "NULL" {
+			items = append(items, term+"(Some VNull)")
+		} else if _, e := fmt.Sscan(got, new(uint64)); e == nil {
+			items = append(items, term+"(Some (VInt "+got+"))")
+		} else {
+			items = append(items, term+"None")
+		}
+	}
+	if disconnects > 0 {
+		c.Count("sql_has_disconnect")
+	}
+	if reentrant > 0 {
+		c.Count("sql_has_reentrant_get_lock")
+	}
+	if contended > 0 {
+		c.Count("sql_has_contended_get_lock")
+	}
+	key := ""
+	if contended > 0 && (reentrant > 0 || disconnects > 0) {
+		key = fmt.Sprint(cs.SQL)
+	}
+	id := c.Case("SqlCase "+lib.CoqList(items), cs, key)
+	c.PredChecked()
+	if fail[0] != "" {
+		c.PredFail(id, fail[0], fail[1], cs)
+	}
+}
+
+func genSQL(r *lib.RNG) caseT {
+	cs := caseT{Mode: "sql"}
+	n := r.Range(5, 25)
+	kinds := []string{"get", "get", "get", "get", "rel", "rel", "rel", "isfree", "isused", "isused", "relall", "disconnect"}
+	for i := 0; i < n; i++ {
+		o := sqlOp{C: r.Range(1, 3), K: lib.Pick(r, kinds)}
+		if o.K != "relall" && o.K != "disconnect" {
+			o.N = r.Range(1, universe)
+		}
+		if o.K == "get" {
+			switch x := r.Intn(60); {
+			case x < 36:
+				o.Tmo = 0
+			case x < 59:
+				o.Tmo = -1
+			default:
+				o.Tmo = 1 // a real one-second wait when the lock is held by someone else
+			}
+		}
+		cs.SQL = append(cs.SQL, o)
+	}
+	return cs
+}
+
 // ---------------- generators ----------------
 func genOp(r *lib.RNG, t int) opT {
 	kinds := []string{"try", "try", "try", "lock", "unlock", "unlock", "unlock", "relall", "state", "state"}
@@ -598,6 +911,8 @@ func run(c *lib.Ctx, cs caseT) {
 		runRelAllStress(c, cs)
 	case "fresh-race":
 		runFreshRace(c, cs)
+	case "sql":
+		runSQL(c, cs)
 	default:
 		panic("driver: unknown mode " + cs.Mode)
 	}
@@ -605,13 +920,13 @@ func run(c *lib.Ctx, cs caseT) {
 
 func main() {
 	lib.Main("C38", func(c *lib.Ctx) {
-		c.Header = "From Coq Require Import List NArith.\nImport ListNotations.\nFrom GMS Require Import Sys.Locks Corr.C38.\nOpen Scope N_scope."
+		c.Header = "From Coq Require Import List NArith ZArith.\nImport ListNotations.\nFrom GMS Require Import Sys.Locks Sys.C38Sql Corr.C38.\nOpen Scope N_scope."
 		c.CaseType = "C38.case"
 		c.MismatchFn = "C38.mismatches"
 		c.SetRule("60% sequential sequences (4-30 calls of TryLock/Lock(300us)/Unlock/ReleaseAll/GetLockState by 1-3 sessions on 3 names; " +
 			"compared call by call with the Coq sequential specification and with an independent reference lock table), 40% concurrent runs " +
 			"(2-4 goroutines = sessions, 3-7 calls each, invocation/response order recorded with an atomic counter, history checked for " +
-			"linearizability by exhaustive search), plus a directed ReleaseAll stress scenario and directed fresh-name races (2-4 sessions issue their first-ever TryLock/Lock on a brand-new name at the same instant, 100-400 rounds: exactly one may succeed). Non-trivial: a sequential case with both a " +
+			"linearizability by exhaustive search), 12% SQL-layer sequences through a real server.NewServer and go-sql-driver connections (GET_LOCK with timeout 0 / 1 s / -1, RELEASE_LOCK, IS_FREE_LOCK, IS_USED_LOCK, RELEASE_ALL_LOCKS, client disconnect; every value compared with the Coq SQL-layer model and the reference), plus a directed ReleaseAll stress scenario and directed fresh-name races (2-4 sessions issue their first-ever TryLock/Lock on a brand-new name at the same instant, 100-400 rounds: exactly one may succeed). Non-trivial: a sequential case with both a " +
 			"contended and a re-entrant acquisition, a concurrent case with overlapping operations; distinct = distinct histories.")
 		if c.ReplayFile != "" {
 			var cs caseT
@@ -631,6 +946,13 @@ func main() {
 			// S1 locks, releases all, S2 locks, S1 releases all again: S2 keeps the lock
 			{Mode: "seq", Ops: []opT{{T: 1, K: "try", N: 1}, {T: 1, K: "try", N: 2}, {T: 1, K: "relall"}, {T: 2, K: "try", N: 1}, {T: 2, K: "lock", N: 2}, {T: 2, K: "lock", N: 2},
 				{T: 1, K: "relall"}, {T: 2, K: "state", N: 1}, {T: 2, K: "state", N: 2}, {T: 1, K: "try", N: 1}, {T: 1, K: "unlock", N: 2}, {T: 2, K: "unlock", N: 2}, {T: 2, K: "relall"}, {T: 1, K: "relall"}}},
+			// SQL layer over a real server: re-entrancy, contention, timeouts 0 / 1 / -1, RELEASE_ALL_LOCKS, disconnect
+			{Mode: "sql", SQL: []sqlOp{{C: 1, K: "get", N: 1}, {C: 1, K: "get", N: 1, Tmo: -1}, {C: 1, K: "get", N: 1, Tmo: 5}, {C: 2, K: "get", N: 1}, {C: 2, K: "isused", N: 1},
+				{C: 2, K: "isfree", N: 1}, {C: 2, K: "rel", N: 1}, {C: 2, K: "rel", N: 2}, {C: 1, K: "rel", N: 1}, {C: 1, K: "rel", N: 1}, {C: 2, K: "get", N: 1, Tmo: 1},
+				{C: 1, K: "rel", N: 1}, {C: 2, K: "get", N: 1, Tmo: 1}, {C: 1, K: "get", N: 1, Tmo: -1}, {C: 1, K: "isused", N: 1}, {C: 1, K: "rel", N: 1}, {C: 1, K: "isfree", N: 1}}},
+			{Mode: "sql", SQL: []sqlOp{{C: 1, K: "get", N: 1}, {C: 1, K: "get", N: 2}, {C: 1, K: "get", N: 2}, {C: 2, K: "get", N: 3}, {C: 1, K: "relall"}, {C: 2, K: "get", N: 1}, {C: 1, K: "relall"},
+				{C: 2, K: "isused", N: 1}, {C: 1, K: "get", N: 2}, {C: 1, K: "disconnect"}, {C: 2, K: "isused", N: 1}, {C: 2, K: "isfree", N: 2}, {C: 3, K: "get", N: 2}, {C: 2, K: "disconnect"},
+				{C: 3, K: "isfree", N: 1}, {C: 3, K: "isfree", N: 3}, {C: 3, K: "isused", N: 2}, {C: 3, K: "relall"}}},
 			{Mode: "fresh-race", G: 2, Rounds: 400},
 			{Mode: "fresh-race", G: 4, Rounds: 400},
 			{Mode: "fresh-race", G: 3, Rounds: 300, UseLock: true},
@@ -641,10 +963,12 @@ func main() {
 		for i := len(corpus); i < c.N; i++ {
 			r := c.R.Fork()
 			switch x := r.Intn(100); {
-			case x < 58:
+			case x < 50:
 				run(c, genSeq(r))
-			case x < 97:
+			case x < 85:
 				run(c, genConc(r))
+			case x < 97:
+				run(c, genSQL(r))
 			default:
 				run(c, caseT{Mode: "fresh-race", G: r.Range(2, 4), Rounds: r.Range(100, 300), UseLock: r.Chance(1, 3)})
 			}
